@@ -226,6 +226,16 @@ def run_case(c, stats):
         for t in tags_of(ra):
             stats.cls("tag:" + t)
     nt = False
+    if not bad and len(c["a"]["trans"]) % 4 == 3:
+        # a bystander transducer with the same state names (one transition less) translates first
+        by = gfst.build(dict(c["a"], trans=c["a"]["trans"][1:]))
+        with core.oracle_mode():
+            rby = extract.fst(by)
+            if not rby.eps_cycle_writes():
+                for w in words(ra.alpha, 2):
+                    judge_translate(by, rby, w, sub="translate")
+        call(by.kleene_star)
+        stats.cls("bystander_first")
     if not bad:
         with core.oracle_mode():
             for w in words(ra.alpha):
